@@ -353,13 +353,19 @@ Fixpoint zrle_rows (fuel : nat) (cap : Z) (v : cpv) (c : bcur) (remaining j rx r
       end
   end.
 
+(* worst-case length of a valid ZRLE tile stream for a w x h rectangle with c-byte CPIXELs: per 64x64 tile one type byte
+   and a palette of at most 127 CPIXELs, per pixel at most c + 1 bytes (plain RLE with runs of length 1); the number of
+   tiles is bounded by (w/64 + 1) * (h/64 + 1).  Proved for the reference encoder in CliZrleBound.v *)
+Definition zrle_bound (w h c : Z) : Z := (w / 64 + 1) * (h / 64 + 1) * (1 + 127 * c) + w * h * (c + 1).
+
 Definition dec_zrle (x y w h : Z) : M unit :=
   s <- get_st ;;
   let v := variant_of s in
   (* fix 8 (notes/fix_C08_7.diff): 4 spare bytes behind the decompressed data, because a 3-byte CPIXEL is read
      as a whole CARDBPP *)
   let slack := if fixed s 8 then 4 else 0 in
-  let minsz := w * h * rbytes v * 2 + slack in
+  (* fix 12 (notes/fix_C07_4.diff): raw_buffer sized by the worst case of a valid tile stream instead of 2 x raw size *)
+  let minsz := (if fixed s 12 then zrle_bound w h (rbytes v) else w * h * rbytes v * 2) + slack in
   let cap := if c_rawsz s <? minsz then minsz else c_rawsz s in
   upd_st (fun s => set_rawsz s cap) ;;;
   r <- rd_zrle_stream ;;
